@@ -149,7 +149,7 @@ Proof.
   assert (Hun : lvl (el_unnamed c node next st) = lvl st).
   { unfold el_unnamed. destruct (el_snippet c node next st) as [st'|] eqn:E.
     - eapply lvl_el_snippet; eassumption.
-    - destruct (an_value node) as [[|v0 value]|]; try reflexivity. rewrite Hn. apply lvl_push_tokens. }
+    - rewrite Hn. destruct (an_value node) as [[|v0 value]|]; try reflexivity. apply lvl_push_tokens. }
   destruct (an_name node) as [[|x nm]|]; try exact Hun.
   unfold el_named.
   destruct (an_self node && match an_children node with [] => true | _ => false end && negb (truthy_l (an_value node))).
